@@ -65,6 +65,10 @@ def tick_program(rng):
         ops = []
         slots = [{'i': i + 1, 'kind': rng.choice(['interval', 'delay']), 'p': rng.choice(per)} for i in range(2)]
         wrap = rng.random() < 0.3
+        if rng.random() < 0.3:
+            # the ticker objects are made ahead of time (as when they are handed to a worker that starts later)
+            ops += [dict(op='mktick', **sl) for sl in slots if sl['p'] >= 0]
+            ops.append({'op': 'sleep', 'd': rng.choice([0.5, 1, 2.5, 3, 7])})
         if wrap:
             ops.append({'op': 'open', 'kind': 'until_d', 'd': rng.choice([2, 5, 7.5, 10]), 'catch': True})
         for _ in range(rng.randint(2, 7)):
@@ -115,3 +119,96 @@ def rankify(trace):
         e['rank'] = True
         out.append(e)
     return out
+
+
+# ---------------------------------------------------------------------------------------------------------------
+# random programs over the whole vocabulary of the operational spec (integers only), for trace validation
+# against USim itself (harness/usimrun.conformance) and for the property monitors
+BIG = dict(NRoots=3, MaxActs=7, MaxScopes=4, RootOps=24, TaskOps=16, Horizon=12, NFlags=2, NLocks=2, NQueues=1, NChans=1,
+           NRes=1, MaxPools=6, ResInit=1, MaxLevel=3, TickSel='mixed', CondSel='none',
+           Menu={'leave', 'instant', 'sleep', 'fset', 'await_f', 'enter', 'avail', 'status', 'open', 'nocatch', 'until_d',
+                 'until_f', 'do', 'do_after', 'do_volatile', 'do_fin', 'do_grace', 'cancel', 'await_t', 'raise', 'raise_priv',
+                 'put', 'get', 'qclose', 'cput', 'cget', 'cnext', 'cstop', 'cclose', 'await_time', 'await_s', 'until_time',
+                 'borrow', 'claim', 'rchange', 'levels', 'await_lvl', 'tick'})
+TICKS = [{'kind': 'interval', 'p': 2}, {'kind': 'interval', 'p': 0}, {'kind': 'delay', 'p': 0}, {'kind': 'delay', 'p': 2}]
+
+
+def usim_program(rng):
+    """a program within the bounds of storm.BIG; task / scope references are relative and resolved by the puppet"""
+    budget = {'acts': BIG['MaxActs'] - BIG['NRoots'], 'scopes': BIG['MaxScopes'], 'pools': BIG['MaxPools'] - 1}
+
+    def leafop():
+        r = rng.choice(['instant', 'instant', 'sleep', 'fset', 'await_f', 'avail', 'put', 'get', 'cput', 'cnext', 'cget',
+                        'cstop', 'qclose', 'cclose', 'levels', 'inc', 'dec', 'await_lvl', 'tick', 'await_c', 'cancel',
+                        'await_t', 'status', 'await_s'])
+        if r == 'sleep':
+            return {'op': 'sleep', 'd': rng.choice([1, 2])}
+        if r == 'fset':
+            return {'op': 'fset', 'f': rng.choice([1, 2]), 'v': rng.random() < 0.6}
+        if r == 'await_f':
+            return {'op': 'await_f', 'f': rng.choice([1, 2]), 'v': rng.random() < 0.7}
+        if r == 'avail':
+            return {'op': 'avail', 'l': rng.choice([1, 2])}
+        if r in ('put', 'get', 'qclose'):
+            return {'op': r, 'q': 1}
+        if r in ('cput', 'cnext', 'cget', 'cstop', 'cclose'):
+            return {'op': r, 'c': 1}
+        if r == 'levels':
+            return {'op': 'levels', 'p': 1}
+        if r in ('inc', 'dec'):
+            return {'op': r, 'p': 1, 'amt': rng.choice([0, 1, 2])}
+        if r == 'await_lvl':
+            return {'op': 'await_lvl', 'p': 1, 'v': rng.choice([0, 1, 2])}
+        if r == 'tick':
+            i = rng.randint(1, 4)
+            return dict(op='tick', i=i, **TICKS[i - 1])
+        if r == 'await_c':
+            return {'op': 'await_c', 'c': [rng.choice(['ge', 'eq', 'lt']), rng.randint(0, 5)]}
+        if r in ('cancel', 'await_t', 'status'):
+            return {'op': r, 'k': -rng.randint(1, 3)}           # the n-th most recently spawned task
+        if r == 'await_s':
+            return {'op': 'await_s', 's': -rng.randint(1, 2)}   # the n-th most recently opened scope
+        return {'op': 'instant'}
+
+    def ops(n, lvl, is_task):
+        out = []
+        left = n
+        while left > 0:
+            left -= 1
+            r = rng.random()
+            if r < 0.55 or lvl >= 2:
+                out.append(leafop())
+            elif r < 0.62:
+                out.append({'op': 'raise', 'cls': rng.choice(['Key', 'Index', 'Key', 'Assert'])})
+            elif r < 0.72:
+                inner = ops(rng.randint(0, 2), lvl + 1, is_task)
+                out += [{'op': 'enter', 'l': rng.choice([1, 2])}] + inner + [{'op': 'leave'}]
+                left -= len(inner) + 1
+            elif r < 0.8 and budget['pools'] > 0:
+                budget['pools'] -= 1
+                inner = ops(rng.randint(0, 2), lvl + 1, is_task)
+                out += [{'op': rng.choice(['borrow', 'borrow', 'claim']), 'p': 1, 'amt': rng.choice([0, 1, 1, 2])}] + inner \
+                    + [{'op': 'leave'}]
+                left -= len(inner) + 1
+            elif budget['scopes'] > 0:
+                budget['scopes'] -= 1
+                kind = rng.choice(['scope', 'scope', 'until_d', 'until_f', 'until_c'])
+                o = {'op': 'open', 'kind': kind, 'catch': rng.random() < 0.8 or kind != 'scope'}
+                if kind == 'until_d':
+                    o['d'] = rng.choice([1, 2])
+                if kind == 'until_f':
+                    o['f'] = rng.choice([1, 2])
+                if kind == 'until_c':
+                    o['c'] = [rng.choice(['ge', 'eq']), rng.randint(0, 5)]
+                body = []
+                for _ in range(rng.randint(0, 2)):
+                    if budget['acts'] > 0:
+                        budget['acts'] -= 1
+                        body.append({'op': 'do', 's': -1, 'vol': rng.random() < 0.25, 'd': rng.choice([0, 0, 1]),
+                                     'fin': rng.choice(['none', 'none', 'none', 'raise', 'spawn', 'grace']),
+                                     'prog': ops(rng.randint(0, 4), 1, True)})
+                body += ops(rng.randint(0, 2), lvl + 1, is_task)
+                out += [o] + body + [{'op': 'leave'}]
+                left -= len(body) + 1
+        return out[:n + 4]
+    return {'start': 0, 'roots': [ops(rng.randint(1, 6), 0, False) for _ in range(BIG['NRoots'])]}
